@@ -60,6 +60,24 @@ def _worker(job):
             rp = run.replay_native(fn, ob.inputs or {})
             replays.append({"label": ob.label, "path": ob.path, "inputs": ob.inputs, "native": rp,
                             "reproduced": ob.label in rp["failed"]})
+        # obligations left undecided, or refuted without a natively reproducing model: search a concrete
+        # failing input by running the harness natively on generated inputs (witness search only)
+        need = {}
+        for ob in res.obligations:
+            if ob.status == "unknown":
+                need.setdefault(ob.label, "unknown")
+        for rp in replays:
+            if not rp["reproduced"]:
+                need.setdefault(rp["label"], "unreproduced")
+        done_labels = set(rp["label"] for rp in replays if rp["reproduced"])
+        for label in need:
+            if label in done_labels or label not in res.input_kinds:
+                continue
+            found, trials = run.search_native(fn, label, res.input_kinds[label], res.pools.get(label, []), seed=seed)
+            if found is not None:
+                rp = run.replay_native(fn, found)
+                replays.append({"label": label, "path": -1, "inputs": found, "native": rp, "reproduced": label in rp["failed"],
+                                "found_by": "native witness search (%d trials) after the prover left the obligation %s" % (trials, need[label])})
         out["replays"] = replays
         out["repo_file"] = os.path.dirname(joserfc.__file__)
         return out
